@@ -52,6 +52,35 @@ class Dim:
             return v.as_long()
         raise Concretization("symbolic dimension %s used as a concrete integer" % self.v)
 
+    # comparisons (`if model.n_states > 0:`): decided from the assumptions on the dimensions where they decide it, else the
+    # run forks (pvx.sym.explore) and the chosen side becomes an assumption of that path
+    def _cmp(self, o, op):
+        from .sym import decide
+        c = WCtx.current
+        cond = z3.simplify(op(self.v, self._c(o)))
+        if z3.is_true(cond):
+            return True
+        if z3.is_false(cond):
+            return False
+        assum = list(c.dim_assumptions) if c is not None else []
+        for want, neg in ((True, z3.Not(cond)), (False, cond)):
+            s_ = z3.Solver()
+            for a in assum:
+                s_.add(a)
+            s_.add(neg)
+            if s_.check() == z3.unsat:
+                return want
+        r = bool(decide(("dim", str(cond))))
+        if c is not None:
+            c.dim_assumptions.append(cond if r else z3.Not(cond))
+        return r
+
+    def __gt__(self, o): return self._cmp(o, lambda a, b: a > b)
+    def __ge__(self, o): return self._cmp(o, lambda a, b: a >= b)
+    def __lt__(self, o): return self._cmp(o, lambda a, b: a < b)
+    def __le__(self, o): return self._cmp(o, lambda a, b: a <= b)
+    def __bool__(self): return self._cmp(0, lambda a, b: a != b)
+
     def __repr__(self):
         return "Dim(%s)" % self.v
 
